@@ -1,5 +1,5 @@
 import CedarVerif.Lemmas.PartialTable2
-import CedarVerif.Lemmas.PartialSound5
+import CedarVerif.Lemmas.PartialSound6
 import CedarVerif.Lemmas.PartialReauth
 import CedarVerif.Lemmas.PartialFull
 import CedarVerif.Lemmas.PartialBridge
@@ -61,14 +61,20 @@ def PinterpSoundFull : Prop :=
 
 /-- **pinterp_sound_partial**: `PinterpSoundFull` restricted to the fragment `Frag` (literals, `principal`/
 `action`/`resource`/`context` incl. unknown — typed or untyped — principal/action/resource and a missing
-context, slots, `&&`, `||`, `if`, every unary operator, the nine store-free binary operators incl. the
-typed-unknown `==` short circuits, `.`/`has` on records and entities, `like`, `is` incl. its typed-unknown short
-circuit), a concrete store, and context/attribute values that survive `Value.toExpr` (`DRT`; trivial for
-primitives).  The residual is evaluated the way `reauthorize` does it (same interpreter, mapper σ, concretised
+context, slots, `&&`, `||`, `if`, every unary operator, all twelve binary operators — the nine store-free ones incl.
+the typed-unknown `==` short circuits, and `in` / `getTag` / `hasTag` on the complete store —, `.`/`has` on records
+and entities (not applied directly to a record constructor or an `if` with such a branch: `NR`), `like`, `is` incl.
+its typed-unknown short circuit, set and record constructors and extension-function calls with the `split` semantics:
+all components values ⇒ a value (canonical set / key-sorted record, which round-trips), otherwise a residual set /
+record / call with the values converted back to expressions; calls for functions satisfying `CallDRT` — proved for the comparison, predicate and conversion
+functions in `callDRT_decimalCmp`, `callDRT_unaryPrim`, `callDRT_isInRange`; for the constructors it is the print/parse
+round trip of the canonical rendering), a concrete store, and context/attribute/tag values that survive `Value.toExpr`
+(`DRT`; trivial for primitives).  The residual is evaluated the way `reauthorize` does it (same interpreter, mapper σ, concretised
 request); `Sem` = equal values, or both errors (error classes may differ).  Proved by induction on the
 fragment, for every first-pass mapper, partial request and fuel.
-Missing w.r.t. the full statement: set/record/extension-call constructors, `in`/`getTag`/`hasTag`, unknowns in
-the policy text, residual contexts, unknown attribute values, `.partial()` stores, and the `subst`-form. -/
+Missing w.r.t. the full statement: `.`/`has` applied directly to a record constructor (the residual is a record
+literal, which `get_attr` projects into and re-interprets), `CallDRT` for the extension constructors, unknowns in the
+policy text, residual contexts, unknown attribute values, `.partial()` stores, and the `subst`-form. -/
 theorem pinterp_sound_partial (σ : Mapper) (req : Request) (es : Entities) (env : SlotEnv)
     (hctx : (Value.record req.context).DRT) (hstore : StoreDRT es) {e : Expr} (hf : Frag e)
     (m0 : Mapper) (preq : PRequest) (n : Nat) (hC : Concretizes σ preq req) :
@@ -99,12 +105,54 @@ example :
         (.and (.binaryApp .eq (.unknown "principal" (some (.entity "U"))) (.lit (.entityUID ⟨"U", "a"⟩))) (.lit (.bool true))))
       (evaluate req [] [] e) := by
   intro σ req preq e
-  have hf : Frag e := .and (.binaryApp .eq rfl (.var _) (.lit _)) (.unaryApp .not (.hasAttr "x" (.var _)))
+  have hf : Frag e := .and (.binaryApp .eq (.var _) (.lit _)) (.unaryApp .not (.hasAttr "x" trivial (.var _)))
   have hC : Concretizes σ preq req := ⟨⟨rfl, rfl⟩, rfl, rfl, rfl⟩
   have hctx : (Value.record req.context).DRT := ⟨RT_emptyRecord, trivial⟩
   have hst : StoreDRT [] := by intro u d h; cases h
   have h := pinterp_sound_partial σ req [] [] hctx hst hf [] preq 10 hC
   exact ⟨⟨_, rfl⟩, h⟩
+
+/-- non-vacuity for the constructors and the store-dependent operators: `[principal, User::"b"].contains(resource.owner)
+    && context.d.lessThan(context.lim) && principal in Group::"g"` with an unknown principal is in the fragment and leaves
+    a residual containing a residual set and a residual `in`. -/
+example :
+    let e : Expr := .and (.binaryApp .contains (.set [.var .principal, .lit (.entityUID ⟨"User", "b"⟩)]) (.getAttr (.var .resource) "owner"))
+                     (.and (.call "lessThan" [.getAttr (.var .context) "d", .getAttr (.var .context) "lim"])
+                           (.binaryApp .mem (.var .principal) (.lit (.entityUID ⟨"Group", "g"⟩))))
+    let preq : PRequest := ⟨.unknown (some "User"), .known ⟨"A", "x"⟩, .known ⟨"R", "r"⟩,
+      some (.value [("d", .ext (.decimal 10000)), ("lim", .ext (.decimal 20000))])⟩
+    Frag e ∧ ∃ r, pinterp [] preq (.ofConcrete [(⟨"R", "r"⟩, ⟨[("owner", .prim (.entityUID ⟨"User", "b"⟩))], [], []⟩)]) [] 10 e = .res r := by
+  intro e preq
+  refine ⟨?_, _, rfl⟩
+  refine .and (.binaryApp .contains (.set ?_) (.getAttr "owner" trivial (.var _)))
+    (.and (.call "lessThan" (by decide) (callDRT_decimalCmp _ (Or.inl rfl)) ?_) (.binaryApp .mem (.var _) (.lit _)))
+  · intro x hx
+    simp only [List.mem_cons, List.not_mem_nil, or_false] at hx
+    rcases hx with rfl | rfl
+    · exact .var _
+    · exact .lit _
+  · intro x hx
+    simp only [List.mem_cons, List.not_mem_nil, or_false] at hx
+    rcases hx with rfl | rfl
+    · exact .getAttr "d" trivial (.var _)
+    · exact .getAttr "lim" trivial (.var _)
+
+/-- … and for record constructors: `{a: principal, b: 1} == context.r` with an unknown principal leaves the residual
+    `{a: unknown(principal), b: 1} == {a: User::"u", b: 1}` (the record value converted back by `Value.toExpr`). -/
+example :
+    let e : Expr := .binaryApp .eq (.record [("a", .var .principal), ("b", .lit (.int 1))]) (.getAttr (.var .context) "r")
+    let preq : PRequest := ⟨.unknown (some "User"), .known ⟨"A", "x"⟩, .known ⟨"R", "r"⟩,
+      some (.value [("r", .record [("a", .prim (.entityUID ⟨"User", "u"⟩)), ("b", .prim (.int 1))])])⟩
+    Frag e ∧ pinterp [] preq (.ofConcrete []) [] 10 e =
+      .res (.binaryApp .eq (.record [("a", .unknown "principal" (some (.entity "User"))), ("b", .lit (.int 1))])
+                           (.record [("a", .lit (.entityUID ⟨"User", "u"⟩)), ("b", .lit (.int 1))])) := by
+  intro e preq
+  refine ⟨.binaryApp .eq (.record ?_) (.getAttr "r" trivial (.var _)), rfl⟩
+  intro kv hkv
+  simp only [List.mem_cons, List.not_mem_nil, or_false] at hkv
+  rcases hkv with rfl | rfl
+  · exact .var _
+  · exact .lit _
 
 /-- **reauthorize_eq_fresh** (given soundness of the residuals at policy level).  If the substitution concretises
 the partial request to `req'`, no residual kept a template slot (otherwise `reauthorize` panics — the recorded
